@@ -1,5 +1,5 @@
 (* Props/C03.v — property C03: conditioning factorises the joint, P(c)P(r|c)=P(c,r); factors recombine. *)
-From Verif Require Import Dist Dist_Proofs C01_Model C02_Model C02_Proofs C03_Model C03_Proofs.
+From Verif Require Import Dist Dist_Proofs C01_Model C02_Model C02_Proofs C03_Model C03_Proofs C03_Norm.
 Open Scope Q_scope.
 
 (* crvs and rvs must be valid and disjoint *)
@@ -65,3 +65,58 @@ Theorem C03_jff_pairs_chain : forall cs rs d cr o p,
     (~ In r (keys (d_tbl (coalesce_flat (cr_idx cr) (cr_joint cr)))) -> p == 0).
 Proof. exact jff_pairs_chain. Qed.
 Print Assumptions C03_jff_pairs_chain.
+
+(* ------------------------------------------------------------------------------------------ *)
+(* every conditional is normalised (Proofs/C03_Norm.v): for a well-formed non-negative table the row of joint
+   values of a stored conditioning value sums to its marginal, so a dense row has mass exactly 1 and a sparse
+   row has mass 1 minus what trimming removed (nothing in a log base; at most null_tol per kept outcome) *)
+Theorem C03_row_joint_sum : forall cs rs d cr k c pc,
+  cond_wf d ->
+  condition_on cs rs d = Some cr ->
+  nth_error (d_tbl (cr_cdist cr)) k = Some (c, pc) ->
+  qsum (map (fun r => get0 (merge (cr_n cr) (cr_cidx cr) (cr_idx cr) c r) (d_tbl (cr_joint cr)))
+            (keys (d_tbl (coalesce_flat (cr_idx cr) (cr_joint cr))))) == pc.
+Proof. exact cond_row_joint_sum. Qed.
+Print Assumptions C03_row_joint_sum.
+
+Theorem C03_row_mass_dense : forall cs rs d cr k c pc cd,
+  cond_wf d ->
+  condition_on cs rs d = Some cr ->
+  nth_error (d_tbl (cr_cdist cr)) k = Some (c, pc) -> nth_error (cr_conds cr) k = Some cd ->
+  d_sparse d = false ->
+  mass (d_tbl cd) == 1.
+Proof. exact cond_row_mass_dense. Qed.
+Print Assumptions C03_row_mass_dense.
+
+Theorem C03_row_mass_sparse : forall cs rs d cr k c pc cd,
+  cond_wf d ->
+  condition_on cs rs d = Some cr ->
+  nth_error (d_tbl (cr_cdist cr)) k = Some (c, pc) -> nth_error (cr_conds cr) k = Some cd ->
+  d_sparse d = true ->
+  mass (d_tbl cd) ==
+  1 - qsum (map (fun r => get0 (merge (cr_n cr) (cr_cidx cr) (cr_idx cr) c r) (d_tbl (cr_joint cr)) / pc)
+                (filter (fun r => is_null (d_base d)
+                                    (get0 (merge (cr_n cr) (cr_cidx cr) (cr_idx cr) c r) (d_tbl (cr_joint cr)) / pc))
+                        (keys (d_tbl (coalesce_flat (cr_idx cr) (cr_joint cr)))))).
+Proof. exact cond_row_mass_sparse. Qed.
+Print Assumptions C03_row_mass_sparse.
+
+Theorem C03_row_mass_sparse_log : forall cs rs d cr k c pc cd,
+  cond_wf d ->
+  condition_on cs rs d = Some cr ->
+  nth_error (d_tbl (cr_cdist cr)) k = Some (c, pc) -> nth_error (cr_conds cr) k = Some cd ->
+  d_sparse d = true -> d_base d <> Linear ->
+  mass (d_tbl cd) == 1.
+Proof. exact cond_row_mass_sparse_log. Qed.
+Print Assumptions C03_row_mass_sparse_log.
+
+Theorem C03_row_mass_sparse_bounds : forall cs rs d cr k c pc cd,
+  cond_wf d ->
+  condition_on cs rs d = Some cr ->
+  nth_error (d_tbl (cr_cdist cr)) k = Some (c, pc) -> nth_error (cr_conds cr) k = Some cd ->
+  d_sparse d = true ->
+  1 - null_tol * inject_Z (Z.of_nat (length (d_tbl (coalesce_flat (cr_idx cr) (cr_joint cr)))))
+    <= mass (d_tbl cd) /\ mass (d_tbl cd) <= 1.
+Proof. exact cond_row_mass_sparse_bounds. Qed.
+Print Assumptions C03_row_mass_sparse_bounds.
+
